@@ -112,6 +112,44 @@ def imported_names(recs):
     return sorted(names), sorted(globs)
 
 
+# a caller TYPE (an enum with an inherent function) named like something the expansion imports: every way a user expression
+# inside a pattern can name it (path to a variant, associated function, cast) in every place that holds a user expression
+TYPE_DECLS = """
+#[derive(Debug, Clone, Copy, PartialEq, PartialOrd)] pub enum {N} {{ Lo, Hi }}
+impl {N} {{ pub fn hi() -> {N} {{ {N}::Hi }} }}
+impl ::assert_struct::Like<{N}> for {N} {{ fn like(&self, other: &{N}) -> bool {{ self == other }} }}
+#[derive(Debug)] struct Subj {{ k: {N}, n: i32, v: Vec<{N}>, m: HashMap<String, {N}> }}
+fn subj() -> Subj {{ let mut m = HashMap::new(); m.insert("a".to_string(), {N}::Hi); Subj {{ k: {N}::Lo, n: 1, v: vec![{N}::Lo, {N}::Hi], m }} }}
+"""
+TYPE_BODIES = [
+    ("root ==", "let k = {N}::Lo; assert_struct!(k, == {N}::Lo);"),
+    ("root !=", "let k = {N}::Lo; assert_struct!(k, != {N}::Hi);"),
+    ("root <", "let k = {N}::Lo; assert_struct!(k, < {N}::Hi);"),
+    ("root <=", "let k = {N}::Lo; assert_struct!(k, <= {N}::hi());"),
+    ("root > (fails)", "let k = {N}::Lo; assert_struct!(k, > {N}::Hi);"),
+    ("root >=", "let k = {N}::Lo; assert_struct!(k, >= {N}::Lo);"),
+    ("field ==", "let s = subj(); assert_struct!(s, Subj {{ k: == {N}::Lo, .. }});"),
+    ("field <=", "let s = subj(); assert_struct!(s, Subj {{ k: <= {N}::Hi, n: 1, .. }});"),
+    ("wildcard struct field >", "let s = subj(); assert_struct!(s, _ {{ k: > {N}::Hi, .. }});"),
+    ("field =~", "let s = subj(); assert_struct!(s, Subj {{ k: =~ {N}::Lo, .. }});"),
+    ("closure body", "let s = subj(); assert_struct!(s, Subj {{ k: |cl_x| *cl_x == {N}::Lo, .. }});"),
+    ("method argument", "let s = subj(); assert_struct!(s, Subj {{ v.contains(&{N}::Hi): true, .. }});"),
+    ("index expression", "let s = subj(); assert_struct!(s, Subj {{ v[{N}::Hi as usize]: == {N}::Hi, .. }});"),
+    ("map value", "let s = subj(); assert_struct!(s, Subj {{ m: #{{ \"a\": == {N}::hi() }}, .. }});"),
+    ("set elements", "let s = subj(); assert_struct!(s, Subj {{ v: #(== {N}::Hi, <= {N}::Lo), .. }});"),
+    ("slice elements", "let s = subj(); assert_struct!(s, Subj {{ v: [>= {N}::Lo, ..], .. }});"),
+    ("inside Some", "let o = Some({N}::Lo); assert_struct!(o, Some(< {N}::Hi));"),
+    ("tuple element", "let t = (1, {N}::Hi); assert_struct!(t, (1, >= {N}::Hi));"),
+    ("asserted expression", "assert_struct!({N}::hi(), == {N}::Hi);"),
+    ("asserted expression with string pattern", "let s = subj(); assert_struct!(format!(\"{{:?}}\", {N}::Lo), \"Lo\");"),
+]
+
+
+def type_program(name, body):
+    return (e2e.PRELUDE + TYPE_DECLS.format(N=name) + "fn main() { std::panic::set_hook(Box::new(|_| {})); run_case(\"t\", || { %s }); }\n"
+            % body.format(N=name))
+
+
 def program(body):
     return e2e.PRELUDE + DECLS + "fn main() { std::panic::set_hook(Box::new(|_| {})); run_case(\"t\", || { %s }); }\n" % body
 
@@ -122,8 +160,8 @@ def run(res):
                     "tools/patgen.py, tools/expstage.py"]
     res.assumptions += ["callers do not use identifiers beginning with `__` (stated in c07_no_capture)",
                         "names brought in by the expansion's block-scoped `use` items are read off the real expansion on every run and a caller "
-                        "LOCAL of each such name is tried (value namespace); a caller TYPE named like an imported trait (AsRef, Like) used inside "
-                        "a pattern expression is not covered (the property speaks of variables)"]
+                        "LOCAL of each such name is tried (value namespace) and a caller TYPE of each such name is used in every place that holds "
+                        "a user expression (type namespace)"]
     vlib.build_coq()
     ths, rep = vlib.check_props("C07")
     res.obligations += ths
@@ -189,6 +227,32 @@ def run(res):
                               % (desc, local, va, vb),
                               {"program_body": body.format(N=local), "twin_body": body.format(N="zz_fresh"),
                                "verdicts": [va, vb], "rustc": a["stderr"][-600:] if va == "does-not-compile" else ""})
+    # the type namespace: a caller type named like an imported item, used in every place that holds a user expression
+    tjobs = [(n, d, b) for n in imported if n.isidentifier() for d, b in TYPE_BODIES]
+    tsrcs = [type_program("ZzFresh", b) for d, b in TYPE_BODIES] + [type_program(n, b) for n, d, b in tjobs]
+    tout = e2e.compile_many(tsrcs, run=True, tag="c07t")
+
+    def verdict(o):
+        return e2e.parse_case_lines(o.get("stdout", "")).get("t", {}).get("verdict") if o["compiled"] else "does-not-compile"
+    fresh = {}
+    for (d, b), o in zip(TYPE_BODIES, tout[:len(TYPE_BODIES)]):
+        fresh[d] = verdict(o)
+        if fresh[d] == "does-not-compile":
+            raise vlib.CheckError("type twin `%s` does not compile with a fresh type name:\n%s" % (d, o["stderr"][-800:]))
+    type_bad = 0
+    for (n, d, b), o in zip(tjobs, tout[len(TYPE_BODIES):]):
+        v = verdict(o)
+        if v != fresh[d]:
+            type_bad += 1
+            twin_bad += 1
+            if type_bad <= 3:
+                res.violation("failing-input", "a caller type named `%s` (a name the expansion imports with `use`), used in a pattern expression "
+                              "(%s): the assertion %s, with the type called ZzFresh it %s" % (n, d, v, fresh[d]),
+                              {"type_twin": True, "name": n, "where": d, "body": b, "verdicts": [v, fresh[d]],
+                               "rustc": o["stderr"][-700:] if v == "does-not-compile" else ""})
+    res.streams["type-twins"] = {"imported_names": [n for n in imported if n.isidentifier()], "places": len(TYPE_BODIES),
+                                 "programs": len(tsrcs), "differing": type_bad}
+    e2e.cleanup("c07t")
     e2e.cleanup("c07")
     res.streams["twins"] = {"pairs": len(tw), "differing": twin_bad}
     expstage.report_disagreement(res, name, dis, failing > 0 or twin_bad > 0)
@@ -206,6 +270,12 @@ def run(res):
 
 def replay(res, path):
     v = json.load(open(path))
+    if v.get("type_twin"):
+        out = e2e.compile_many([type_program(v["name"], v["body"]), type_program("ZzFresh", v["body"])], run=True, tag="c07r")
+        vs = [(e2e.parse_case_lines(o.get("stdout", "")).get("t", {}).get("verdict") if o["compiled"] else "does-not-compile") for o in out]
+        e2e.cleanup("c07r")
+        print("verdicts (named %s, named ZzFresh):" % v["name"], vs)
+        return 1 if vs[0] != vs[1] else 0
     if "program_body" in v:
         out = e2e.compile_many([program(v["program_body"]), program(v["twin_body"])], run=True, tag="c07r")
         vs = [(e2e.parse_case_lines(o.get("stdout", "")).get("t", {}).get("verdict") if o["compiled"] else "does-not-compile") for o in out]
